@@ -144,6 +144,9 @@ pub fn catalogue() -> Vec<Probe> {
                 push(name, format!("to_string a {kk} key"), format!("(k: &Key<{va}, {kk}>) {{ let _ = k.to_string(); }}"), false);
                 push(name, format!("Debug a {kk} key"), format!("(k: &Key<{va}, {kk}>) {{ let _ = format!(\"{{:?}}\", k); }}"), false);
                 push(name, format!("serde-serialise a {kk} key"), format!("(k: &Key<{va}, {kk}>) {{ let _ = serde_json::to_string(k); }}"), false);
+                push(name, format!("feed a {kk} key to a caller-supplied Hasher"), format!("(k: &Key<{va}, {kk}>) {{ fn needs_hash<T: std::hash::Hash>(_: &T) {{}} needs_hash(k); }}"), false);
+                push(name, format!("use a {kk} key as a HashMap key"), format!("(k: Key<{va}, {kk}>) {{ let mut m = std::collections::HashMap::new(); m.insert(k, 1u8); }}"), false);
+                push(name, format!("construct a {kk} key from its private field"), format!("(k: Key<{va}, {kk}>) {{ let _ = Key::<{va}, {kk}>(k.0); }}"), false);
                 push(name, format!("read the private field of a {kk} key"), format!("(k: &Key<{va}, {kk}>) {{ let _ = &k.0; }}"), false);
             }
             push(name, format!("expose_key a {kk} key (explicit)"), format!("(k: &Key<{va}, {kk}>) {{ let _ = k.expose_key().to_string(); }}"), true);
